@@ -37,7 +37,7 @@ FAMILIES = ["buffer-stress", "exact-chain", "stripe-stress", "exact-dag", "alias
 
 
 def gen_cases(tier, seed):
-    return campaign.gen_cases(tier, seed, 2, 560, 12000, families=FAMILIES, cfg_hook=cfg_hook, extra=[("shape-ops", 24, 500), ("approx-tail2", 12, 300), ("grouped-conv", 8, 200)])
+    return campaign.gen_cases(tier, seed, 2, 560, 12000, families=FAMILIES, cfg_hook=cfg_hook, extra=[("shape-ops", 24, 500), ("approx-tail2", 12, 300), ("grouped-conv", 8, 200), ("lstm", 24, 400)])
 
 
 def check_artefact(c, viol, counters, sets):
@@ -116,6 +116,13 @@ def run_case(case):
             sets["cfg"].add("%s/%s" % (case["cfg"]["acc"], case["cfg"].get("mode")))
     finally:
         c.cleanup()
+    if case["family"] == "lstm":
+        # findings about the LSTM unrolling are keyed with the operator (they are properties of that lowering, not of the footprint of an ordinary operator)
+        counters["lstm_networks"] = 1
+        for m_ in list(viol):
+            v_ = viol.pop(m_)
+            v_["mech"] = m_ + ":lstm"
+            viol[v_["mech"]] = v_
     return {"violations": list(viol.values()), "counters": counters, "sets": {k: sorted(v) for k, v in sets.items()},
             "key": "%s|%s|%d" % (case["family"], case["cfg"]["acc"], counters["kernel_ops"]) if counters["kernel_ops"] else None,
             "sample": {"family": case["family"], "acc": case["cfg"]["acc"], "mode": case["cfg"].get("mode"), "kernel_ops": counters["kernel_ops"], "dma_ops": counters["dma_ops"]}}
